@@ -119,6 +119,12 @@ pub fn hash_str(s: &str) -> u64 {
 
 /// All cases of a property for a tier. `seed` rotates the quick-tier subset.
 pub fn select(property: &str, tier: Tier, seed: u64) -> Vec<Case> {
+    // a configuration that is both picked by the seeded sampler and listed explicitly is one case
+    let mut seen = std::collections::HashSet::new();
+    select_all(property, tier, seed).into_iter().filter(|c| seen.insert(c.id.clone())).collect()
+}
+
+fn select_all(property: &str, tier: Tier, seed: u64) -> Vec<Case> {
     match property {
         "C01" => c01::cases(tier, seed),
         "C02" => c02::cases(tier, seed),
